@@ -6,6 +6,90 @@ import copy
 from typing import Iterable, Iterator, Optional
 
 
+_NEG = {ast.NotEq: ast.Eq, ast.NotIn: ast.In, ast.IsNot: ast.Is}
+_POS = {v: k for k, v in _NEG.items()}
+
+
+def _strip_not(test: ast.AST):
+    """(test without an outer negation, negated?) - `not X` and single negative comparisons"""
+    neg = False
+    while isinstance(test, ast.UnaryOp) and isinstance(test.op, ast.Not):
+        test = test.operand
+        neg = not neg
+    return test, neg
+
+
+def canonicalise(tree: ast.AST) -> None:
+    """Semantics-preserving normal form, applied once when a module is loaded, so that the rules do not
+    depend on which of two equivalent spellings a maintainer chose:
+      if not X: B else: A      ->  if X: A else: B          (a real else, not an elif chain)
+      if a != b: B else: A     ->  if a == b: A else: B     (likewise `not in`, `is not`)
+      for ..: if T: continue; REST   ->  for ..: if not T: REST     (guard clause at the top level of a loop body)
+      a `pass` among other statements is dropped
+      not not X                ->  X
+      not (a == b) / (a in b) / (a is b) and their negative forms -> the single comparison
+    Line numbers stay those of the original nodes."""
+    for node in ast.walk(tree):
+        for fld, val in ast.iter_fields(node):
+            if isinstance(val, ast.UnaryOp) and isinstance(val.op, ast.Not):
+                new = _simplify_not(val)
+                if new is not val:
+                    setattr(node, fld, new)
+            elif isinstance(val, list):
+                for i, v in enumerate(val):
+                    if isinstance(v, ast.UnaryOp) and isinstance(v.op, ast.Not):
+                        new = _simplify_not(v)
+                        if new is not v:
+                            val[i] = new
+    # statement lists: a `pass` next to other statements is dropped; an early `continue` guard at the
+    # top level of a loop body becomes a nested conditional:  if T: continue; REST  ->  if not T: REST
+    for node in ast.walk(tree):
+        for fld in ("body", "orelse", "finalbody"):
+            seq = getattr(node, fld, None)
+            if isinstance(seq, list) and len(seq) > 1 and any(isinstance(x, ast.Pass) for x in seq) and all(isinstance(x, ast.stmt) for x in seq):
+                kept = [x for x in seq if not isinstance(x, ast.Pass)]
+                seq[:] = kept or [seq[0]]
+    for node in ast.walk(tree):
+        if isinstance(node, (ast.For, ast.While)):
+            body = node.body
+            for i in range(len(body) - 2, -1, -1):
+                st = body[i]
+                if isinstance(st, ast.If) and not st.orelse and len(st.body) == 1 and isinstance(st.body[0], ast.Continue):
+                    neg = _simplify_not(ast.copy_location(ast.UnaryOp(op=ast.Not(), operand=st.test), st.test))
+                    nested = ast.copy_location(ast.If(test=neg, body=body[i + 1:], orelse=[]), st)
+                    body[i:] = [nested]
+    for node in ast.walk(tree):
+        if isinstance(node, ast.If) and node.orelse and not (len(node.orelse) == 1 and isinstance(node.orelse[0], ast.If)):
+            t = node.test
+            if isinstance(t, ast.UnaryOp) and isinstance(t.op, ast.Not):
+                node.test = t.operand
+                node.body, node.orelse = node.orelse, node.body
+            elif isinstance(t, ast.Compare) and len(t.ops) == 1 and type(t.ops[0]) in _NEG:
+                # a single negative comparison with a real else: positive form, arms swapped
+                node.test = ast.copy_location(ast.Compare(left=t.left, ops=[_NEG[type(t.ops[0])]()], comparators=t.comparators), t)
+                node.body, node.orelse = node.orelse, node.body
+        if isinstance(node, ast.IfExp):
+            t = node.test
+            if isinstance(t, ast.UnaryOp) and isinstance(t.op, ast.Not):
+                node.test = t.operand
+                node.body, node.orelse = node.orelse, node.body
+
+
+def _simplify_not(e: ast.UnaryOp) -> ast.AST:
+    inner, neg = _strip_not(e)
+    if isinstance(inner, ast.Compare) and len(inner.ops) == 1 and neg:
+        op = type(inner.ops[0])
+        if op in _NEG:
+            return ast.copy_location(ast.Compare(left=inner.left, ops=[_NEG[op]()], comparators=inner.comparators), e)
+        if op in _POS:
+            return ast.copy_location(ast.Compare(left=inner.left, ops=[_POS[op]()], comparators=inner.comparators), e)
+    if not neg:
+        return inner
+    if inner is e.operand:
+        return e
+    return ast.copy_location(ast.UnaryOp(op=ast.Not(), operand=inner), e)
+
+
 def set_parents(tree: ast.AST) -> None:
     for node in ast.walk(tree):
         for child in ast.iter_child_nodes(node):
